@@ -582,7 +582,7 @@ func (u *Unit) contractCall(f *Frame, st *State, con *Contract, callee *ssa.Func
 		}
 	}
 	pre := st.clone()
-	env := &SpecEnv{u: u, st: st, old: pre, vars: vars, oldVars: vars, pkg: con.Pkg, fr: f}
+	env := &SpecEnv{u: u, st: st, old: pre, vars: vars, oldVars: vars, pkg: con.Pkg, fr: f, callSite: true}
 	short := cname
 	if i := strings.LastIndex(short, "."); i >= 0 && !strings.Contains(short[i:], ")") {
 		short = short[i+1:]
@@ -611,7 +611,7 @@ func (u *Unit) contractCall(f *Frame, st *State, con *Contract, callee *ssa.Func
 	if len(results) == 1 {
 		post["result"] = results[0]
 	}
-	penv := &SpecEnv{u: u, st: st, old: pre, vars: post, oldVars: vars, pkg: con.Pkg, fr: f}
+	penv := &SpecEnv{u: u, st: st, old: pre, vars: post, oldVars: vars, pkg: con.Pkg, fr: f, callSite: true}
 	for _, e := range con.Ensures {
 		u.assume(st, penv.boolExpr(e.Expr))
 	}
